@@ -24,7 +24,7 @@ type Gen struct {
 func weightsFor(profile string) map[string]int {
 	base := map[string]int{"block": 22, "user_send": 12, "user_cancel": 3, "req_batch": 3, "ext_deposit": 8,
 		"poll_all": 10, "orch_poll": 6, "sign_all": 7, "orch_sign": 3, "relay": 10, "stall": 1, "ext_tick": 2,
-		"stake": 2, "oracle_round": 1, "byz_claim": 2, "node_restart": 1, "clock_jump": 2, "batch_race": 2}
+		"stake": 2, "oracle_round": 1, "byz_claim": 2, "node_restart": 1, "clock_jump": 2, "batch_race": 2, "gov": 1}
 	switch profile {
 	case "C05adv":
 		return map[string]int{"block": 20, "adv_event": 14, "user_send": 10, "req_batch": 4, "user_cancel": 2, "clock_jump": 2, "sign_all": 1, "huge_fees": 3}
@@ -73,6 +73,8 @@ func weightsFor(profile string) map[string]int {
 		base["poll_all"] = 12
 		base["ext_deposit"] = 10
 		base["stake"] = 4
+	case "C01":
+		base["gov"] = 5
 	case "C19", "C11":
 		base["oracle_round"] = 3
 		base["user_send"] = 18
@@ -390,6 +392,18 @@ func (g *Gen) Step() {
 		g.sizeBurst()
 	case "batch_race":
 		g.batchRace()
+	case "gov":
+		// a proposal, yes votes of every validator, then the voting period passes
+		t := g.token()
+		if g.R.Intn(2) == 0 {
+			g.emit(Intent{T: "gov", Op: "cold", V: g.R.Intn(len(w.Vals)), Chain: t.Chain, Denom: t.Denom, Amt: g.amount(new(big.Int).Quo(bigOf(w.Cfg.UserFunds), big.NewInt(10)))})
+		} else {
+			g.emit(Intent{T: "gov", Op: "commission", V: g.R.Intn(len(w.Vals)), Pick: g.R.Intn(9), Amt: commChoices[g.R.Intn(len(commChoices))]})
+		}
+		g.emit(Intent{T: "block", Dt: 5, N: 1})
+		g.emit(Intent{T: "gov", Op: "vote"})
+		g.emit(Intent{T: "block", Dt: 5, N: 1})
+		g.emit(Intent{T: "block", Dt: 25, N: 1})
 	case "huge_fees":
 		g.hugeFees()
 	case "cancel_pair":
